@@ -829,8 +829,37 @@ func randHistory(r *rand.Rand, doc *Node, n int, rich bool, dirty bool) []Op {
 	// the model is stepped while generating so that later paths refer to the
 	// document as it will be (as far as the model knows it)
 	cur := doc.clone()
+	var inside loc // a match of the last multi-match container set
 	for i := 0; i < n; i++ {
 		var op Op
+		if inside != nil {
+			// go on below one of the matches of the step before: the other
+			// matches must not follow
+			var below []match
+			for _, m := range allLocs(cur) {
+				if len(inside) < len(m.at) && inside.isPrefixOf(m.at) {
+					below = append(below, m)
+				}
+			}
+			inside = nil
+			if 0 < len(below) && r.IntN(4) != 0 {
+				op.Path = below[r.IntN(len(below))].at.path()
+				if r.IntN(2) == 0 {
+					op.Op = "remove"
+					if res, st, _, _ := modelRemove(cur, op.Path); st == stOK {
+						cur = res
+					}
+				} else {
+					op.Op, op.Val, op.ValMode = "set", nInt(int64(r.IntN(1000))), "lisp"
+					if res, st, _, _ := modelSet(cur, op.Path, op.Val); st == stOK {
+						cur = res
+					}
+				}
+				finishOp(r, &op)
+				ops = append(ops, op)
+				continue
+			}
+		}
 		switch x := r.IntN(20); {
 		case x < 9:
 			op.Op = "set"
@@ -841,8 +870,19 @@ func randHistory(r *rand.Rand, doc *Node, n int, rich bool, dirty bool) []Op {
 			if op.ValMode == "text" || op.ValMode == "stream" {
 				op.Op = "parse"
 			}
+			multi := !op.Path.definite() && !op.Path.hasDescent()
+			if multi && r.IntN(2) == 0 {
+				op.Op = "set"
+				op.Val, op.ValMode = randNestedValue(r)
+				if op.ValMode == "text" || op.ValMode == "stream" {
+					op.Op = "parse"
+				}
+			}
 			if res, st, _, _ := modelSet(cur, op.Path, op.Val); st == stOK {
 				cur = res
+				if ms, _ := evalPath(cur, op.Path); multi && op.Val.isContainer() && 1 < len(ms) {
+					inside = ms[r.IntN(len(ms))].at
+				}
 			}
 		case x < 14:
 			op.Op = "remove"
@@ -922,6 +962,8 @@ var probePaths = []Path{
 	{fChild("o"), fWild()}, {fChild("o"), fNth(0)}, {fChild("u")}, {fChild("o")}, {fChild("b")}, {fChild("a"), fNth(1)}, {fChild("w")}, {fChild("w"), fChild("x")},
 	{fChild("w"), fNth(0)}, {fChild("h"), fWild(), fChild("k"), fChild("deep")}, {fChild("h"), fWild(), fChild("nokey"), fChild("deep")},
 	{fDescent(), fChild("c"), fChild("d")}, {fDescent(), fChild("c"), fChild("nokey")},
+	{fChild("h"), fSlice(0, 1), fChild("k")}, {fChild("h"), fSlice(0, -1), fChild("k")}, {fChild("a"), fSlice(0, 2)}, {fChild("a"), fSlice(1, -1)},
+	{fUnion("s", "t")}, {fChild("b"), fUnion("c", "f")}, {fUnion("a", "g"), fNth(0)},
 }
 
 var probeOps = []string{"set", "remove", "get", "has", "walk", "getall", "modify", "modify-as-bag", "parse"}
@@ -1065,13 +1107,13 @@ func genHist(r *rand.Rand, i int) Case {
 
 type layout struct {
 	textProbes, nativeProbes, bridgeProbes, pathProbes, histProbes int
-	intProbes, gridProbes, removeProbes, multiProbes               int
+	intProbes, gridProbes, removeProbes, multiProbes, nestedProbes int
 	random                                                         int
 }
 
 func layoutFor(tier string) layout {
 	l := layout{textProbes: nTextProbes(), nativeProbes: nNativeProbes(), bridgeProbes: nBridgeProbes(), pathProbes: nPathProbes(), histProbes: nHistProbes(),
-		intProbes: nIntProbes(), gridProbes: nGridProbes(), removeProbes: nRemoveProbes(), multiProbes: nMultiProbes()}
+		intProbes: nIntProbes(), gridProbes: nGridProbes(), removeProbes: nRemoveProbes(), multiProbes: nMultiProbes(), nestedProbes: nNestedProbes()}
 	l.random = 14000
 	if tier == "thorough" {
 		l.random = 260000
@@ -1081,7 +1123,7 @@ func layoutFor(tier string) layout {
 
 func nCases(tier string) int {
 	l := layoutFor(tier)
-	return l.textProbes + l.nativeProbes + l.bridgeProbes + l.pathProbes + l.histProbes + l.intProbes + l.gridProbes + l.removeProbes + l.multiProbes + l.random
+	return l.textProbes + l.nativeProbes + l.bridgeProbes + l.pathProbes + l.histProbes + l.intProbes + l.gridProbes + l.removeProbes + l.multiProbes + l.nestedProbes + l.random
 }
 
 func gen(r *rand.Rand, i int, tier string) Case {
@@ -1122,6 +1164,10 @@ func gen(r *rand.Rand, i int, tier string) Case {
 		return multiProbe(i)
 	}
 	i -= l.multiProbes
+	if i < l.nestedProbes {
+		return nestedProbe(i)
+	}
+	i -= l.nestedProbes
 	deep := 3
 	if tier == "thorough" {
 		deep = 5
